@@ -163,12 +163,11 @@ EventScheduler::cancel(EVH * func, void *arg)
     ev_entry **E;
     ev_entry *event;
 
-    for (E = &tasks; (event = *E) != nullptr; E = &(*E)->next) {
-        if (event->func != func)
+    for (E = &tasks; (event = *E) != nullptr;) {
+        if (event->func != func || (arg && event->arg != arg)) {
+            E = &event->next;
             continue;
-
-        if (arg && event->arg != arg)
-            continue;
+        }
 
         *E = event->next;
 
@@ -176,17 +175,9 @@ EventScheduler::cancel(EVH * func, void *arg)
 
         if (arg)
             return;
-        /*
-         * DPW 2007-04-12
-         * Since this method may now delete multiple events (when
-         * arg is NULL) it no longer returns after a deletion and
-         * we have a potential NULL pointer problem.  If we just
-         * deleted the last event in the list then *E is now equal
-         * to NULL.  We need to break here or else we'll get a NULL
-         * pointer dereference in the last clause of the for loop.
-         */
-        if (nullptr == *E)
-            break;
+
+        // When arg is nil, we delete all events with a matching func. Do not
+        // advance E here: *E is now the next, not yet examined, event.
     }
 
     if (arg)
